@@ -95,14 +95,24 @@ func TestVerif_C20_basic(t *testing.T) {
 		"user/password strings: plain, with colon, UTF-8, Latin-1 bytes, empty, 200..900 bytes, spaces, arbitrary bytes; all four producers must agree; recovered pair by net/http Request.BasicAuth; plus arbitrary Authorization values for the server side; non-trivial = non-empty user and password")
 	r := s.Rand()
 	n := verifh.N(3000, 60000)
-	for i := 0; i < n; i++ {
-		u, ku := c20Text(r, true)
-		p, kp := c20Text(r, true)
-		if r.Intn(8) == 0 {
+	// every total length 0..300 (all residues mod 3 on both sides of any buffer size an encoder might use), then the random stream
+	sweep := 301
+	for i := 0; i < sweep+n; i++ {
+		var u, ku, p, kp string
+		if i < sweep {
+			lu := r.Intn(i + 1)
+			u, ku = verifh.RandBytes(r, lu, "abcXYZ019~._-\xe9 "), "sweep"
+			p, kp = verifh.RandBytes(r, i-lu, ""), "sweep"
+			s.Count(fmt.Sprintf("sweep-len%%3=%d", (i+1)%3))
+		} else {
+			u, ku = c20Text(r, true)
+			p, kp = c20Text(r, true)
+		}
+		if i >= sweep && r.Intn(8) == 0 {
 			u = verifh.RandBytes(r, r.Intn(20), "")
 			ku = "bytes"
 		}
-		if r.Intn(8) == 0 {
+		if i >= sweep && r.Intn(8) == 0 {
 			p = verifh.RandBytes(r, r.Intn(20), "")
 			kp = "bytes"
 		}
